@@ -861,3 +861,46 @@ func TestC11UniformList(t *testing.T) {
 	}
 	h.RunList(t, cases, c11CheckUni)
 }
+
+// ------------------------------------------------------ native fuzz target
+
+// FuzzC11Decode feeds arbitrary byte strings to the same pure checks
+// (thorough tier only; seeded with the RFC vectors and boundary strings).
+// 32-byte inputs go through the decoder check, everything else through the
+// wrong-length check.
+func FuzzC11Decode(f *testing.F) {
+	unhex := func(s string) []byte {
+		var x h.Hex
+		if err := x.UnmarshalJSON([]byte(`"` + s + `"`)); err != nil {
+			panic(err)
+		}
+		return x
+	}
+	for _, s := range h.C11RistBadEncodings {
+		f.Add(unhex(s))
+	}
+	for _, s := range h.C11RistMultiples {
+		f.Add(unhex(s))
+	}
+	f.Add(ref.ToLE(ref.P, 32))
+	f.Add(ref.ToLE(ref.SqrtM1, 32))
+	f.Add([]byte{})
+	f.Add(make([]byte, 31))
+	f.Add(make([]byte, 33))
+	f.Add(make([]byte, 64))
+	one := h.Hex(ref.ToLE(big.NewInt(1), 32))
+	f.Fuzz(func(t *testing.T, data []byte) {
+		var res h.Result
+		if len(data) == 32 {
+			res = c11CheckDec(c11DecCase{In: append([]byte(nil), data...), Cls: "fuzz", K: int(data[0]>>1) & 3, Lam: one})
+		} else {
+			if len(data) > 4096 {
+				return
+			}
+			res = c11CheckAnyLen(c11AnyLenCase{In: append([]byte(nil), data...), Cls: "fuzz"})
+		}
+		if res.Viol != nil {
+			t.Fatalf("VERIF-FUZZ-VIOLATION sig=%s input=%x detail=%s", res.Viol.Sig, data, res.Viol.Detail)
+		}
+	})
+}
